@@ -54,6 +54,8 @@ MockCheckedActualCall::MockCheckedActualCall(unsigned int callOrder, MockFailure
       allExpectations_(allExpectations), outputParameterExpectations_(NULLPTR)
 {
     potentiallyMatchingExpectations_.addPotentiallyMatchingExpectations(allExpectations);
+    /* candidates dropped by an earlier actual call keep their per-call marks: start every call from a clean state */
+    potentiallyMatchingExpectations_.resetActualCallMatchingState();
 }
 
 MockCheckedActualCall::~MockCheckedActualCall()
